@@ -116,6 +116,16 @@ package channel
 //@   ensures #success-means-echo-seen result.1 == nil ==> contains(window(result.0, (2 * len(b) > c.PromptSearchDepth ? 2 * len(b) : c.PromptSearchDepth)), b)
 //@   loop 1 invariant RI(c.Q) && rd == old(rd) ++ rb
 
+//@ func (*Channel).ReadUntilFuzzy [C01 C05 C06]
+//@   requires RI(c.Q) && c.PromptSearchDepth >= 0 && len(b) <= 4611686018427387903
+//@   modifies rd, c.Q.queue, c.Q.depth, chan(c.Q.depthChan)
+//@   ensures #ri RI(c.Q)
+//@   ensures #nil-on-error result.1 != nil ==> len(result.0) == 0
+//@   ensures #returns-exactly-what-it-consumed result.1 == nil ==> rd == old(rd) ++ result.0
+//@   ensures #success-means-the-echo-was-roughly-seen-in-the-window result.1 == nil && len(b) > 0 ==> roughly(b, window(result.0, (2 * len(b) > c.PromptSearchDepth ? 2 * len(b) : c.PromptSearchDepth)))
+//@   ensures #nothing-to-wait-for-without-input len(b) == 0 ==> result.1 == nil && len(result.0) == 0 && rd == old(rd)
+//@   loop 1 invariant RI(c.Q) && rd == old(rd) ++ rb && len(b) > 0
+
 // ---- C05: timeout selection -------------------------------------------------------------------------------------
 // from the statement: the per-operation timeout, when given, takes precedence; zero means the maximum
 //@ func (*Channel).GetTimeout [C05]
